@@ -17,6 +17,10 @@ type Pipe struct {
 	ends [2]*End
 	// Flow: writes complete at once and all written bytes are readable at once.
 	Flow bool
+	// LazyClose: closing an end does not by itself fail a Write that is already parked on that end;
+	// the parked Write fails only when the director acknowledges it (a transport that lets go of
+	// pending I/O late).
+	LazyClose bool
 }
 
 type End struct {
@@ -84,8 +88,12 @@ func (e *End) Write(b []byte) (int, error) {
 	pe.inbound = append(pe.inbound, b...)
 	e.wParked, e.wAck, e.wLen = true, false, len(b)
 	p.cond.Broadcast()
-	for !e.wAck && !e.closed && e.writeErr == nil {
+	for !e.wAck && !(e.closed && !p.LazyClose) && e.writeErr == nil {
 		p.cond.Wait()
+	}
+	if e.wAck && e.closed {
+		e.wParked = false
+		return 0, ErrClosedPipe
 	}
 	e.wParked = false
 	switch {
@@ -229,6 +237,13 @@ func (p *Pipe) SetFlow(flow bool) {
 		}
 		p.cond.Broadcast()
 	}
+}
+
+// SetLazyClose switches the LazyClose behaviour.
+func (p *Pipe) SetLazyClose(lazy bool) {
+	p.mu.Lock()
+	p.LazyClose = lazy
+	p.mu.Unlock()
 }
 
 // WrittenCopy returns everything this end has written so far.
